@@ -426,6 +426,89 @@ def end_stream_table(ctx, rule):
     ctx.floor(rule, len(seen), 3, what="state variants covered by is_end_stream")
 
 
+def _subst(t, a, b):
+    if t == a:
+        return b
+    if isinstance(t, tuple):
+        return tuple(_subst(x, a, b) for x in t)
+    return t
+
+
+def eos_implies_end(ctx, rule):
+    """whenever is_end_stream answers true the next poll is the end: every pair (row of is_end_stream that can answer true,
+    row of poll_next) whose conditions on the shared state at entry are compatible has the poll row return Ready(None).
+    The conditions are compared on terms over the entry state, whatever fields it has - a field the flag does not look at
+    but the poll does (a deferred error, a second queue) makes a pair compatible. One invariant is used: a successful
+    pop means queued bytes > 0 (C08.R3 / R4 / R6: the counter is the sum of the queued, non-empty chunks)."""
+    R, rows = reader_rows(ctx)
+    STATE = ("STATE0",)
+    outs = [o for o in ctx.px(R["is_end_stream"], inline=lambda c, d: True, key="all") if o.kind == "return"]
+
+    def facts_of(o, st0, extra_known=()):
+        kn, var, nvar = {}, {}, {}
+        for t, v in list(o.cons.known.items()) + list(extra_known):
+            if st0 is not None and repr(st0) in repr(t):
+                kn[_subst(t, st0, STATE)] = v
+        for t, v in o.cons.variant.items():
+            if st0 is not None and (t == st0 or repr(st0) in repr(t)):
+                var[_subst(t, st0, STATE)] = v
+        for t, v in o.cons.notvariant.items():
+            if st0 is not None and (t == st0 or repr(st0) in repr(t)):
+                nvar[_subst(t, st0, STATE)] = set(v)
+        return kn, var, nvar
+    trues = []
+    for o in outs:
+        val = o.value
+        if is_const(val) and val[1] == 0:
+            continue
+        root = shared_root(o)
+        if root is None:
+            ctx.violation(rule, rule + "|eos-root", "UNRECOGNISED: is_end_stream answers without locking the shared state")
+            continue
+        st0 = entry_state(R, root)
+        b = live_field(R, st0, R["bytes_f"])
+        extra = []
+        if not is_const(val):
+            # a symbolic answer: the row stands for "true" under the extra condition that the answer is 1
+            if isinstance(val, tuple) and val[0] == "binop" and val[1] == "Eq" and val[3] == const(0):
+                extra.append((("iszero", val[2]), 1))
+            else:
+                extra.append((val, 1))
+        z = cons_zone(o, terms=(b,))
+        if z.entails("Eq", b, const(0)):
+            extra.append((("iszero", b), 1))
+        trues.append((o, facts_of(o, st0, extra), short(val, 30)))
+    n = 0
+    bad = set()
+    for r in rows:
+        if r["kind"] != "return":
+            continue
+        o = r["o"]
+        st0 = r["st0"]
+        b = live_field(R, st0, R["bytes_f"])
+        extra = []
+        if r["pop"] == "Some":
+            extra.append((("iszero", b), 0))
+        elif r["pop"] == "None" or cons_zone(o, terms=(b,)).entails("Eq", b, const(0)):
+            extra.append((("iszero", b), 1))
+        pk, pv, pn = facts_of(o, st0, extra)
+        for eo, (ek, ev_, en), what in trues:
+            compatible = all(pk.get(t, v) == v for t, v in ek.items()) and all(pv.get(t, v) == v for t, v in ev_.items()) and \
+                all(pv.get(t) not in vs for t, vs in en.items()) and all(ev_.get(t) not in vs for t, vs in pn.items())
+            if not compatible:
+                continue
+            n += 1
+            if r["out"] != "None":
+                key = "%s|%s-after-eos|%s" % (rule, r["out"], r["entry"])
+                if key not in bad:
+                    bad.add(key)
+                    ctx.violation(rule, key, "is_end_stream answers true (%s) in a state (entry variant %s) in which the next poll returns %s: the flag looks at less "
+                                  "of the shared state than the poll does" % (what, r["entry"], r["out"]), where=_w(o))
+            else:
+                ctx.ok(rule, "end-of-stream row x poll row (entry %s): the poll returns the end" % r["entry"])
+    ctx.floor(rule, n, 2, what="compatible (end-of-stream row, poll row) pairs")
+
+
 def size_hint_table(ctx, rule):
     R = roles(ctx)
     outs = [o for o in ctx.px(R["size_hint"], inline=lambda c, d: True, key="all") if o.kind == "return"]
